@@ -15,6 +15,14 @@ for d in sorted(glob.glob('/verif/seeded/*/')):
     title = next((l.strip('# ').strip() for l in readme.splitlines() if l.strip()), '')[:110]
     checks = m.get('checks', {})
     res = ', '.join('%s %s' % (k, 'CAUGHT' if v.get('caught') else 'missed') for k, v in checks.items() if isinstance(v, dict))
+    first = {}
+    for h in m.get('history', []):
+        for k, v in (h.get('checks') or {}).items():
+            if isinstance(v, dict) and k not in first:
+                first[k] = v.get('caught')
+    missed_first = [k for k, v in first.items() if v is False and checks.get(k, {}).get('caught')]
+    if missed_first:
+        res += ' (first run: %s missed; caught after strengthening)' % ', '.join(missed_first)
     rows.append('| %s | %s | %s | %s | %s |' % (m.get('name'), m.get('property'), title.replace('|', '/'), m.get('demo_reliability', ''), res))
 print('| change | breaks | what it is | demo | quick checks (VERIF_SEED=1) |')
 print('|---|---|---|---|---|')
